@@ -630,7 +630,8 @@ fn malform(rng: &mut Rng, project: &mut Value) -> &'static str {
     }
 }
 
-fn gen_project(rng: &mut Rng, max_defs: u64) -> (Value, String) {
+/// (public: `h_c12.rs` includes this file as a module for its P-Code stream)
+pub fn gen_project(rng: &mut Rng, max_defs: u64) -> (Value, String) {
     let table = match rng.below(10) {
         0..=3 => table_x64(),
         4 | 5 => table_x86(),
@@ -697,7 +698,7 @@ fn gen_project(rng: &mut Rng, max_defs: u64) -> (Value, String) {
     (project, kind)
 }
 
-fn strip_nulls(v: &mut Value) {
+pub fn strip_nulls(v: &mut Value) {
     match v {
         Value::Object(m) => {
             let keys: Vec<String> = m.iter().filter(|(_, x)| x.is_null()).map(|(k, _)| k.clone()).collect();
